@@ -287,6 +287,32 @@ static void case_tf(Tape &t, Ctx &cx)
             if (dn) { VP_CHECK(cx, fs.ctx.output[0] == got, "tf:stored_output_differs", "step %u (scale 2^%d): the output history holds %.17g, the value returned was %.17g", k, s2, double(fs.ctx.output[0]), double(got)); }
         }
     }
+    // (6) the ways callers actually drive a filter: priming samples whose results are discarded, then a run of one constant
+    //     sample in a loop (a step response). Every call advances the filter, whether or not its result is used and whether or not
+    //     its arguments changed since the last call.
+    {
+        TF fp(b, a);
+        Ref rp;
+        rp.b = b; rp.a = a;
+        rp.in.assign(nn, 0); rp.out.assign(dn, 0);
+        bool ok6 = true;
+        unsigned prime = len < 3 ? len : 3;
+        for (unsigned k = 0; k < prime; ++k)
+        {
+            (void)rp.step(x1[k], ok6);
+            (void)a_tf_iter(&fp.ctx, R(x1[k])); // result not used
+        }
+        R const c = R(x2[0] ? x2[0] : 1);
+        unsigned m = 1 + len % 7;
+        R y = 0;
+        i128 want = 0;
+        for (unsigned k = 0; k < m && ok6; ++k) { want = rp.step(int(c), ok6); }
+        if (ok6)
+        {
+            for (unsigned k = 0; k < m; ++k) { y = a_tf_iter(&fp.ctx, c); }
+            if (!(y == R(want))) { cx.fail("tf:call_not_counted", "%u primed samples (results discarded) then %u times the constant sample %.17g: the last call returned %.17g, the difference equation gives %.17g (num_n=%u den_n=%u)", prime, m, double(c), double(y), double(R(want)), nn, dn); }
+        }
+    }
 }
 
 static R gen_alpha(Tape &t, Ctx &cx, bool &dyadic)
